@@ -726,6 +726,18 @@ def compare_phase(chk, c, model, tag, stats, do_case=True):
     B = len(sc["frames"])
     ctx, out, nT = c["ctx"], c["out"], c["nT"]
     rec_subs = c["subs"]
+    _pp = out["pred_instance_peaks"]
+    n_out = int(_pp.size(0)) if hasattr(_pp, "size") and callable(_pp.size) else len(_pp)
+    if n_out != B:
+        # added after C03-r9m1 (frames without a grouped instance dropped from the output): a direct failing input
+        # instead of an IndexError further down (which was reported as no-failing-input-found)
+        chk.case(None, tags=["batch_output_length_differs"])
+        chk.fail(f"C03 fails on BottomUpInferenceModel.forward ({tag}): a batch of {B} frames came back with {n_out} "
+                 "entries in pred_instance_peaks (every later frame's animals are reported under an earlier frame)",
+                 {"scene": frac_json(sc)}, {"frames": B, "entries": n_out,
+                                           "groups_expected_per_frame": [len(expected_groups(sc, b)) for b in range(B)]},
+                 [])
+        return []
     for b in range(B):
         peaks_b, lsa_b = ctx[b]
         m = parse_model(model[b], nT, sc["n_nodes"])
